@@ -19,6 +19,28 @@ CLAIMED = {
         ref='§4 C12'),
 }
 
+CLAIMED['C01'] = dict(
+    text='Decides with Z3 over the real MIR of the interpreter ops (C01.K1/K2): for every pair of operand values (all 2^64 number '
+         'bit patterns, bool, nil, every object kind) each arithmetic / comparison / equality / logic op produces the IEEE or '
+         'string result of left-op-right or ends in the documented RuntimeError, and each jump op moves ip and the stack exactly '
+         'as the source rule prescribes for every 16-bit distance. Front-end fidelity (text to AST) and the composition into '
+         'program output are outside the claim.',
+    note='Trusted: rustc MIR printer, mirsym, abstract object identities (vmabs.py), Z3 FP theory. Fiber stack primitives, '
+         'Value methods, is_falsey are executed from MIR, not modelled.',
+    ref='§4 C01')
+
+CLAIMED['C06'] = dict(
+    text='Decides with Z3 over the real MIR (C06.K1): for each of the 79 symbolic instructions with arbitrary operands, encoded by '
+         'ByteCodeEncoder::encode at an arbitrary offset and then executed by one step of Vm::execute on those very bytes: '
+         'len() == bytes written == bytes consumed, stack_effect() == net stack depth change on every non-error path, jump ops '
+         'land exactly on the label offset or the distance overflow is diagnosed, PushHandler registers the label offset and the '
+         'slot depth operand, retried ops restore ip and depth, the line table gets one entry per byte. The induction over the '
+         'lowering functions (linear simulation == every path) and max_slots reservation are not yet machine checked.',
+    note='Trusted: rustc MIR printer, mirsym, abstract object identities and call summary at resolve_call (vmabs.py), Z3. '
+         'Fiber stack primitives and all ops are executed from MIR. Known design-level findings F4-F6 (handler depth vs '
+         'parameters, nested try exits, ternary double counting) are in the lowering, outside K1.',
+    ref='§4 C06')
+
 NOT_APPLICABLE = {
     'C08': 'global liveness of the fiber scheduler needs the running Vm (DESIGN.md §6); no bounded symbolic encoding of the real scheduler is within reach',
 }
